@@ -1,5 +1,7 @@
 import ClusterVerif.Spec.C03
+import ClusterVerif.Spec.C03Block
 import Driver.Parse
+import Driver.PinParse
 namespace CV.C03
 open CV.Parse
 
@@ -65,9 +67,109 @@ def answerValid (ws : List String) : String :=
     | _, _ => "bad-case valid"
   | _ => "bad-case valid"
 
+/-! ### raw metric arrivals (`C03 raw …`) -/
+
+def parseArrival (s : String) : Option RawMetric :=
+  match s.splitOn "/" with
+  | [n, p, v, e, x] => do
+    let val ← if x == "x" then some MVal.text else x.toNat?.map MVal.num
+    pure { name := ← n.toNat?, peer := ← p.toNat?, valid := ← bool01 v, expired := ← bool01 e, val := val }
+  | _ => none
+
+def parseView (s : String) : Option PeersetView :=
+  if s == "n" then some .noProvider
+  else if s == "f" then some .failed
+  else if s == "m" then some (.members [])
+  else if s.startsWith "m" then (((s.drop 1).toString.splitOn ".").mapM String.toNat?).map .members
+  else none
+
+def parseLm (s : String) : Option (List (Nat × MState)) :=
+  if !s.startsWith "lm=" then none else
+  listOf (fun t => match t.splitOn ":" with
+    | [p, v] => do
+      let st ← if v == "x" then some MState.nonNumeric else v.toNat?.map MState.valid
+      pure (← p.toNat?, st)
+    | _ => none) (s.drop 3).toString
+
+/-- `C03 raw d rmin rmax arrivals view cur bl pri => lm=… out` : the abstract input is COMPUTED from the raw arrivals
+    (`rawInput`, order = first arrival per peer), the monitor's answer is compared with the pipeline model, and the
+    allocation with the relation and the property on that input -/
+def answerRaw (ws : List String) : String :=
+  match splitArrow ws with
+  | some ([d, rmin, rmax, arrs, view, cur, bl, pri], lm :: post) =>
+    match bool01 d, rmin.toInt?, rmax.toInt?, listOf parseArrival arrs, parseView view, nats cur, nats bl, nats pri,
+          parseLm lm, parseOut post with
+    | some d, some rmin, some rmax, some arr, some view, some cur, some bl, some pri, some lm, some o =>
+      -- peers with a window under the allocation metric's name (0), in order of last appearance
+      let order := dedup ((arr.filter (fun m => m.name == 0)).map (·.peer))
+      let i := rawInput order arr 0 view d rmin rmax cur bl pri
+      let model := (latestMetrics order arr 0 view).map (fun m => (m.peer, m.state))
+      let sameLm := lm.length == model.length && lm.all model.contains && model.all lm.contains
+      -- the property on the monitor's answer itself: only fresh metrics of members, one per peer
+      let lmOk := lm.all (fun q => (stateOfRaw arr 0 view q.1) == q.2 && q.2.healthy) && (lm.map (·.1)).Nodup
+      let failed := (clauses i o).filter (fun c => !c.2)
+      if !lmOk then "propfail metrics_fresh_members_only arm=raw-" ++ arm i
+      else if !failed.isEmpty then "propfail " ++ ",".intercalate (failed.map (·.1)) ++ " arm=raw-" ++ arm i
+      else if !sameLm then "diff arm=raw-" ++ arm i ++ " model-lm=" ++ showNats (model.map (·.1))
+      else if !allowed i o then "diff arm=raw-" ++ arm i ++ " model=" ++ showOut (allocate i)
+      else "ok arm=raw-" ++ arm i ++ (if positive i then "" else " trivial")
+    | _, _, _, _, _, _, _, _, _, _ => "bad-case raw-parse"
+  | _ => "bad-case raw"
+
+/-! ### BlockAllocate (`C03 block …`) -/
+
+def parseBlockCfg (s : String) : Option (Bool × Int × Int × Bool) :=
+  match s.splitOn "/" with
+  | [f, dm, st] => do
+    let (a, b) ← PinParse.parseFactors (dm.drop 2).toString
+    pure (f == "f1", a, b, st == "s1")
+  | _ => none
+
+def parsePing (s : String) : Option (List (Nat × MState)) :=
+  listOf (fun t => match t.splitOn ":" with
+    | [p, v] => do
+      let st ← if v.startsWith "v" then some (MState.valid 0) else if v == "e" then some .expired
+               else if v == "i" then some .invalid else if v == "a" then some .absent else none
+      pure (← p.toNat?, st)
+    | _ => none) s
+
+def parseBlockOut : List String → Option BlockOut
+  | ["err"] => some .err
+  | ["ok", l] => (nats l).map .ok
+  | _ => none
+
+def answerBlock (ws : List String) : String :=
+  if ws.contains "panic" then "propfail call_panicked arm=block" else
+  match splitArrow ws with
+  | some ([cfg, peers, ping, pre, undef, pin], post) =>
+    match parseBlockCfg cfg, PinParse.parsePeers peers, parsePing ping, PinParse.parsePinset pre, bool01 undef,
+          PinParse.parsePin pin, parseBlockOut post with
+    | some (fol, dmin, dmax, desc), some peers, some ping, some pre, some undef, some pin, some o =>
+      let c : C04.Cfg := { follower := fol, defMin := dmin, defMax := dmax, desc := desc, peers := peers, paths := [], blocks := [] }
+      let k : BlockCase := { cfg := c, ping := ping, pre := pre, undef := undef, pin := pin }
+      if !wf k.input then "bad-case not-wf" else
+      let chosen := match o with | .ok l => l | .err => []
+      let m := blockAllocate c pre undef pin (pingHealthy k) chosen
+      let sub := (if k.input.rmin == -1 && k.input.rmax == -1 then "everywhere" else if positive k.input then arm k.input else "invalid")
+      let a := "block-" ++ (if undef then "add-" else if k.existing.isSome then "repin-" else "new-") ++ sub
+      let failed := (blockClauses k o).filter (fun c => !c.2)
+      let agree := match m.out, o with
+        | .err, .err => true
+        | .ok l, .ok l' => (match m.alloc with
+            | some ai => allowed ai (.ok l')
+            | none => l.length == l'.length && l.all l'.contains && l'.all l.contains)
+        | _, _ => false
+      if !failed.isEmpty then "propfail " ++ ",".intercalate (failed.map (·.1)) ++ " arm=" ++ a
+      else if !agree then "diff arm=" ++ a ++ " model=" ++ (match m.out with | .ok l => "ok " ++ showNats l | .err => "err")
+      else "ok arm=" ++ a ++ (if blockMustRefuse k then " trivial" else "")
+    | _, _, _, _, _, _, _ => "bad-case block-parse"
+  | _ => "bad-case block"
+
 /-- answer for one case line (tokens after the leading "C03") -/
 def answer (ws : List String) : String :=
   if ws.head? == some "valid" then answerValid ws.tail else
+  if ws.head? == some "raw" then answerRaw ws.tail else
+  if ws.head? == some "block" then answerBlock ws.tail else
   match parseCase ws with
   | none => "bad-case"
   | some (i, o) =>
